@@ -45,7 +45,7 @@ def draw_config(rng, mode="bounded", allow_restart=False, faults=True):
     opt = {"kill": [0, 1, 2], "disconnect": [0, 1, 3], "reconnect": [0, 1], "wait": [0, 1, 2],
            "addwait": [0, 0, 1], "setinfo": [0, 1], "info": [0, 1, 2], "stats": [0, 1],
            "adv": [0, 1, 2], "tick": [0, 1, 2], "jump": [0, 1], "restart": [0, 0, 1], "drop": [0, 0, 1],
-           "reset": [0, 0, 1, 2]}
+           "reset": [0, 0, 1, 2], "pipeline": [0, 0, 1]}
     for k, choices in opt.items():
         w[k] = rng.choice(choices)
     if not faults:
@@ -138,12 +138,15 @@ class QsRun:
                 self.fault("connection-reset")
                 if holding:
                     self.fault("connection-reset-while-holding")
-                if sim.conns[name].outstanding is not None:
+                if sim.conns[name].outstanding:
                     self.fault("connection-reset-with-request-in-flight")
         elif op == "send":
-            ok = sim.send(st[1], st[2], st[3])
+            pipelined = len(st) > 4 and st[4] == "pipelined"
+            ok = sim.send(st[1], st[2], st[3], pipelined)
             if ok:
                 self._inject(("send", st[1], st[2]))
+                if pipelined and len(sim.conns[st[1]].outstanding) > 1:
+                    self.fault("pipelined-request")
         elif op == "yield":
             sim.yield_gen()
             ok = True
@@ -226,6 +229,9 @@ class QsRun:
         if not live:
             w["disconnect"] = 0
             w["reset"] = 0
+        busy = [n for n in live if sim.conns[n].outstanding and sim.can_send(n, True)]
+        if not busy:
+            w["pipeline"] = 0
         if not deadc:
             w["reconnect"] = 0
         if self._events_in_quantum == 0:
@@ -371,6 +377,15 @@ class QsRun:
         if hot and rng.random() < 0.75:
             return ["disconnect", rng.choice(sorted(hot))]
         return ["disconnect", rng.choice(live)]
+
+    def g_pipeline(self, sendable, live, deadc):
+        """A client that does not wait for the answer (a heartbeat behind a long poll)."""
+        rng, sim = self.rng, self.sim
+        busy = [n for n in live if sim.conns[n].outstanding and sim.can_send(n, True)]
+        name = rng.choice(busy)
+        k = rng.choice(["setinfo", "info", "stats", "add"])
+        st = getattr(self, "g_" + k)([name], live, deadc)
+        return ["send", name, st[2], st[3], "pipelined"]
 
     def g_reset(self, sendable, live, deadc):
         st = self.g_disconnect(sendable, live, deadc)
